@@ -232,6 +232,26 @@ def _check(v, with_ignored):
         if o != ("ok", (want_big, want_big, True)):
             bad.append({"what": "the sum of an integer-valued genomic array with values beyond 2^53 is not the exact integer sum of the dense array", "tags": dict(tags, step="sum-beyond-2^53"),
                         "vector": v, "expected": want_big, "observed": str(o)[:200]})
+        # ... and converted back to bedGraph its values are those integers exactly
+        def big_back():
+            T = g.get_track(BedGraph(chrom, st, en, vals.astype(np.int64) + K))
+            return sorted(set(x for x in T.get_data().value.tolist() if x != 0))
+        o = outcome(big_back)
+        n += 1
+        want_vals = sorted(set(int(r["v"]) + K for r in bg))
+        if o[0] != "ok" or len(o[1]) != len(want_vals) or any(not (a_ == b_) for a_, b_ in zip(o[1], want_vals)):
+            bad.append({"what": "an integer-valued genomic array with values beyond 2^53 converted back to bedGraph does not hold its values exactly", "tags": dict(tags, step="get_data-beyond-2^53"),
+                        "vector": v, "expected": want_vals, "observed": str(o)[:200]})
+        # a pile-up scaled by plain Python integers past 2^31 equals the dense int64 arithmetic
+        def scaled():
+            P = g.get_intervals(Interval(chrom, st, en)).get_pileup()
+            return dense((P * 65536) * 65536), dense(P * 1000000000)
+        o = outcome(scaled)
+        n += 1
+        want_sc = ([[x * 65536 * 65536 for x in row] for row in v["B"]], [[x * 1000000000 for x in row] for row in v["B"]])
+        if o != ("ok", want_sc):
+            bad.append({"what": "a pile-up multiplied by plain integers past 2^31 differs from the dense 64-bit arithmetic", "tags": dict(tags, step="pileup-scaled-past-2^31"),
+                        "vector": v, "expected": str(want_sc)[:200], "observed": str(o)[:200]})
     # float-valued and boolean tracks are lossless too (identity tree only)
     if tree[0] == "A" and bg:
         for kind, vv, want in (("float", vals * 0.5, [[x * 0.5 for x in row] for row in v["A"]]),
